@@ -66,6 +66,18 @@ for _n, _f in _A4.items():
 for _n in ("add_tf_tf", "sub_tf_tf", "add_tf_f64", "add_f64_tf", "sub_tf_f64", "sub_f64_tf", "add_assign", "sub_assign"):
     ob("c03::zero_sum_" + _n, "C03", timeout=600, functions=["Add/Sub/AddAssign/SubAssign bodies (zero-sum clause)"])
 
+# ------------------------------------------------------------------ C04 / C05 (f64 divisor)
+for _n, _f in {"alg9_mul_tf_f64": "Mul<&f64> for &TwoFloat", "alg9_mul_f64_tf": "Mul<&TwoFloat> for &f64", "alg9_mul_assign_f64": "MulAssign<&f64> for TwoFloat",
+               "alg12_mul_tf_tf": "Mul<&TwoFloat> for &TwoFloat", "alg12_mul_assign_tf": "MulAssign<&TwoFloat> for TwoFloat"}.items():
+    ob("c04::" + _n, ["C04", "C12"], cls="miter", timeout=600, functions=[_f], backend="cbmc+cvc5")
+for _n, _f in {"alg15_div_tf_f64": "Div<&f64> for &TwoFloat", "alg15_div_assign_f64": "DivAssign<&f64> for TwoFloat", "alg15_new_div": "TwoFloat::new_div"}.items():
+    ob("c04::" + _n, ["C05", "C02"], cls="miter", timeout=600, functions=[_f], backend="cbmc+cvc5")
+ob("c04::mul_zero_factor", "C04", timeout=1200, functions=["Mul/MulAssign bodies (zero factor)"])
+for _n in ("mul_by_one_f64", "mul_by_minus_one_f64", "mul_by_one_tf", "mul_one_tf_by_x", "mul_by_minus_one_tf"):
+    ob("c04::" + _n, "C04", timeout=1500, functions=["Mul/MulAssign bodies (x * +-1)"])
+ob("c04::agreement::fma_model_agreement", ["C04", "C05", "C11", "C01", "C02"], cls="ground", timeout=300)
+ob("c04::mul_pow2_exact", "C04", timeout=1200, functions=["Mul bodies (x * 2^k)"])
+
 # ------------------------------------------------------------------ C02 (leaves; also carry C01, C03)
 def _nm(d):
     return ("m%d" % -d) if d < 0 else ("p%d" % d)
